@@ -242,11 +242,14 @@ def r5_oneshot_emulation(ctx, rule="C04.R5"):
                 opath_true += [e.key() for e in be["true"]]
     direct = []
     after = cfg.reachable(r.target) if r.target is not None else set()
+    # Ok(..) aggregates that flow into the return value (directly, or through the return slot of an inlined helper)
+    ok_aggs = {id(o.stmt) for o in T.return_origins(b) if o.kind == "agg" and (o.detail or "").endswith("Result::Ok") and o.stmt is not None}
     for blk in b.blocks:
         if blk.cleanup or blk.idx not in after:
             continue
         for s_ in blk.stmts:
-            if s_.kind == "assign" and s_.lhs.is_local and s_.lhs.local == 0 and s_.rv["k"] == "agg" and s_.rv.get("variant") == "Ok":
+            if s_.kind == "assign" and s_.rv["k"] == "agg" and s_.rv.get("variant") == "Ok" and \
+                    ((s_.lhs.is_local and s_.lhs.local == 0) or id(s_) in ok_aggs):
                 direct.append((blk.idx, s_))
     if not sym or not opath_true:
         out.append(violated(rule, "Resolver::open:direct-return", b.where(), "the emulated one-shot open no longer tests is_symlink()/O_PATH (anchor drift)"))
@@ -280,27 +283,52 @@ def r6_component_queue(ctx, rule="C04.R6"):
     F = ctx.facts
     out = []
     n = 0
-    # (a) RawComponents::prepend pushes every item
+    # (a) RawComponents::prepend pushes every item: no dropping adaptor, and every component obtained from the
+    #     splitter reaches push_front (iterator-chain and explicit-loop spellings alike)
     pb = F.body("utils::path::RawComponents::<'_>::prepend")
-    for t in pb.calls():
-        if (t.callee or "").startswith("std::iter::Iterator::") or (t.callee or "").startswith("std::iter::DoubleEndedIterator::"):
-            tys = " ".join([t.f.get("full") or ""] + list(t.argtys or []))
-            m = DROPPING.search(tys)
-            key = "prepend:%s" % t.callee.rsplit("::", 1)[-1]
-            n += 1
-            if m or t.callee.rsplit("::", 1)[-1] in ("filter", "filter_map", "skip_while", "take_while", "skip", "take", "step_by"):
-                out.append(violated(rule, key, t.where(), "components of a link body are dropped before they reach the walk (%s): a link to 'file/' then resolves where openat2 returns ENOTDIR" % (m.group(0) if m else t.callee)))
-            else:
-                out.append(holds(rule, key, t.where(), "no dropping adaptor"))
-    for cb in F.closures_of(pb.path):
+    bodies = [pb] + F.closures_of(pb.path)
+    drops = []
+    for cb in bodies:
+        for t in cb.calls():
+            c = t.callee or ""
+            if c.startswith(("std::iter::Iterator::", "std::iter::DoubleEndedIterator::")):
+                tys = " ".join([t.f.get("full") or ""] + list(t.argtys or []))
+                m = DROPPING.search(tys)
+                if m or c.rsplit("::", 1)[-1] in ("filter", "filter_map", "skip_while", "take_while", "skip", "take", "step_by", "nth", "last", "find"):
+                    drops.append((t, m.group(0) if m else c))
+    n += 1
+    if drops:
+        for (t, what) in drops:
+            out.append(violated(rule, "prepend:%s" % t.callee.rsplit("::", 1)[-1], t.where(), "components of a link body are dropped before they reach the walk (%s): a link to 'file/' then resolves where openat2 returns ENOTDIR" % what))
+    else:
+        out.append(holds(rule, "prepend:no-dropping-adaptor", pb.where(), "no dropping adaptor between the splitter and the queue"))
+    pushed = False
+    for cb in bodies:
         pushes = list(cb.calls(re.compile(r"VecDeque::<T, A>::push_front$")))
         if not pushes:
             continue
+        pushed = True
         cfg = cfg_of(cb)
-        skip = any(x in cfg.reachable(cfg.entry, cut_nodes=[p_.bb for p_ in pushes]) for x in cfg.return_blocks())
         n += 1
-        (out.append(violated(rule, "prepend:push", cb.where(), "the closure feeding the queue can return without pushing its component")) if skip else
+        if cb.kind == "closure":
+            skip = any(x in cfg.reachable(cfg.entry, cut_nodes=[p_.bb for p_ in pushes]) for x in cfg.return_blocks())
+        else:
+            # explicit loop: from the edge on which next()/next_back() produced a component, the loop header is not
+            # reachable again without passing a push
+            skip = False
+            loops = cfg.natural_loops()
+            for t in cb.calls("std::iter::Iterator::next", "std::iter::DoubleEndedIterator::next_back"):
+                r_ = result_edges(cb, t)
+                hs = [h for h, blks in loops.items() if t.bb in blks]
+                if not r_ or not hs:
+                    continue
+                some = r_.get("all_ok") or r_.get("ok") or []
+                if any(hs[0] in cfg.edge_targets_reachable(some, cut_nodes=[p_.bb for p_ in pushes]) for _ in (0,)):
+                    skip = True
+        (out.append(violated(rule, "prepend:push", cb.where(), "a component taken from the splitter can be dropped without being pushed to the queue")) if skip else
          out.append(holds(rule, "prepend:push", cb.where(), "every component is pushed")))
+    if not pushed:
+        out.append(violated(rule, "prepend:push", pb.where(), "prepend no longer pushes to the front of the queue"))
     # (b) the initial queue of both walks
     for fn in ("resolvers::opath::imp::do_resolve", "resolvers::procfs::opath_resolve"):
         b = F.body(fn)
@@ -313,7 +341,7 @@ def r6_component_queue(ctx, rule="C04.R6"):
             m = DROPPING.search(ty)
             (out.append(violated(rule, key, t.where(), "components of the path are dropped before the walk (%s)" % m.group(0))) if m else
              out.append(holds(rule, key, t.where(), "queue = every raw component of the path")))
-    if n < 3:
+    if n < 4:
         out.append(violated(rule, "component-queue:anchors", "", "queue producers not found (anchor drift)"))
     return out
 
@@ -368,6 +396,6 @@ RULES = [
     ("C04.R3", r3_synthesised_errnos, 10, False),
     ("C04.R4", r4_path_bytes, 18, False),
     ("C04.R5", r5_oneshot_emulation, 3, False),
-    ("C04.R6", r6_component_queue, 5, False),
+    ("C04.R6", r6_component_queue, 4, False),
     ("C04.R7", r7_symlink_stack_tables, 1, False),
 ]
